@@ -2014,6 +2014,22 @@ func (m *Matcher) checkOmission(e *env, fr *frame, n *If, then bool) {
 			return true
 		})
 	}
+	// a condition that tests several fields of the omitted section for emptiness claims "the section
+	// is empty" by enumeration: then the enumeration has to cover every field of the section (one
+	// representative field, as in `if this.McallerPcode != 0`, is a presence condition by design)
+	nSec := 0
+	for f := range mentioned {
+		if labelSetHas(out, f) && !labelSetHas(in, f) {
+			nSec++
+		}
+	}
+	if nSec >= 2 {
+		for f := range out {
+			if isFieldLabel(f) && !labelSetHas(in, f) {
+				mentioned[f] = true
+			}
+		}
+	}
 	for f := range mentioned {
 		if !labelSetHas(out, f) || labelSetHas(in, f) {
 			continue
